@@ -470,14 +470,14 @@ def r7_biotype(ctx):
     r = ctx.r
     m = ctx.repo.module("gene.biotype")
     node = ctx.repo.const("gene.biotype", "Biotype")
-    names = None
-    if isinstance(node, ast.Call):
-        for kw in node.keywords:
-            if kw.arg == "names":
-                names = ast.literal_eval(kw.value)
-    if names is None:
+    # the member table as the library builds it (the functional Enum call is interpreted, however its names list is written)
+    it = std_interp(ctx.repo)
+    try:
+        members = it.enum("Biotype")
+    except Uninterpretable as ex:
         from ..model import AnalysisError
-        raise AnalysisError("Biotype is not built by the functional Enum API with a literal names list")
+        raise AnalysisError(f"Biotype member table not interpretable: {ex}")
+    names = [(n, mv.value) for n, mv in members.items()]
     where = (m.relpath, node)
     r.floor("C15.R7", "biotype names", len(names), 30)
     explicit = {"mrna": "proteincoding", "pseudo": "pseudogene"}
